@@ -454,6 +454,26 @@ fn kernels(seed: u64) {
     dig_matrix::<F64, Blake3_256<F64>>("f64.blake3", &mut r, 1);
     let _ = dig_high_degree_proofs();
     dig_evaluator();
+    // node vectors of the Merkle builder called DIRECTLY (concurrent build: crypto::merkle::concurrent::build_merkle_nodes,
+    // which MerkleTree::new only reaches above 1024 leaves), ToyHasher digests: compared with the extracted model
+    for log in 5..=12 { let l = 1usize << log; println!("C merkle-nodes {l} {} {} => {}", CONC as u8, threads(), merkle_nodes_obs(l)); }
+}
+
+fn merkle_nodes_obs(l: usize) -> String {
+    let leaves: Vec<_> = (0..l as u64).map(|i| ToyHasher::<F64>::hash(&i.to_le_bytes())).collect();
+    #[cfg(feature = "concurrent")]
+    let res = catch(AssertUnwindSafe(|| winter_crypto::concurrent::build_merkle_nodes::<ToyHasher<F64>>(&leaves)));
+    #[cfg(not(feature = "concurrent"))]
+    let res = catch(AssertUnwindSafe(|| winter_crypto::build_merkle_nodes::<ToyHasher<F64>>(&leaves)));
+    match res {
+        Err(_) => "panic".into(),
+        Ok(nodes) => {
+            let w: Vec<u64> = nodes.iter().map(|d| d.to_u64()).collect();
+            let x = w.iter().fold(0u64, |a, &v| a ^ v);
+            let ws = w.iter().enumerate().fold(0u64, |a, (i, &v)| a.wrapping_add(v.wrapping_mul(i as u64 + 1)));
+            format!("root:{:x} xor:{:x} wsum:{:x} len:{}", w[1], x, ws, w.len())
+        }
+    }
 }
 
 // ------------------------------------------------------------------------------------------------ spy hasher (Merkle tasks)
